@@ -753,11 +753,11 @@ Proof.
   intros H Lp Lb La. pose proof (is_perm_lt _ _ H) as Hlt. unfold product_core. cbn [fst snd].
   rewrite (perm_map3 _ _ _ _ (None : RV) r N) by auto.
   rewrite (vmin_pv r N) by (auto; rewrite map3_length; lia).
-  now rewrite (pv_map2 r N).
+  cbv zeta. now rewrite (pv_map2 r N).
 Qed.
 Lemma product_core_length (p bb a : list RV) N : length p = N -> length a = N ->
   length (fst (product_core p bb a)) = N.
-Proof. intros Lp La. unfold product_core; cbn [fst]. rewrite map2_length; lia. Qed.
+Proof. intros Lp La. unfold product_core; cbv zeta; cbn [fst]. rewrite map2_length; lia. Qed.
 
 Lemma check_simplex_invariant eps r N b u : is_perm r N -> length b = N ->
   check_simplex (B:=FldR) eps (pv r b) u = check_simplex eps b u.
